@@ -87,8 +87,8 @@ Proof.
   change (k_len (with_mode e m)) with (k_len e).
   change (drops_of_list (with_mode e m)) with (drops_of_list e).
   rewrite (k_fetch_n_mode e m (e_len e) (s_c (c_sh c)) He (proj1 He)).
-  destruct (t_pc (c_pool c t)) as [|q|q b|q b|q b got|q b got|q b got|q b got| |hm|hm] eqn:Hpc.
-  3-11: same_branches.
+  destruct (t_pc (c_pool c t)) as [|q|q b|q b|q b|q b got|q b got|q b got|q b got| |hm|hm] eqn:Hpc.
+  3-12: same_branches.
   - destruct (t_todo (c_pool c t)); [reflexivity|]. apply call_mode.
   - destruct (e_kind e) eqn:K; try reflexivity;
       rewrite finish_mode; rewrite (k_pull_mode e m q (s_c (c_sh c)) He (Hq q eq_refl eq_refl)); reflexivity.
